@@ -173,7 +173,8 @@ func originOfIndex(d *declInfo, m types.Object) indexOrigin {
 					if f == nil {
 						continue
 					}
-					switch f.Name() {
+					fname := objName(f)
+					switch fname[strings.LastIndex(fname, ".")+1:] {
 					case "indexNodes":
 						out = indexOrigin{kind: "nodes", operand: baseObj(d, sel.X)}
 					case "indexRootElements":
